@@ -1,6 +1,8 @@
 import NssVerif.Props.C04
 import NssVerif.Props.C05
 import NssVerif.Lemmas.Slice
+import NssVerif.Lemmas.MinEnergy
+import NssVerif.Props.C07
 import Mathlib.Tactic.IntervalCases
 
 /-!
@@ -11,8 +13,9 @@ import Mathlib.Tactic.IntervalCases
 * the slicing and row-interpolation clauses are theorems about `Model.Interp` at ℝ for all grids/rows;
 * the file round trip (HDF5/FITS) is third-party I/O: explored on the real code by the harness, not proved
   (partial; see DESIGN.md).
-* not yet proved here: "smallest reachable tau energy above the tau mass" (checked numerically on the shipped
-  tables on every run by the harness).
+* "smallest reachable tau energy above the tau mass": `shipped_min_tau_energy_v*` — every tau energy the sampler
+  can return from a shipped table, for any in-range neutrino energy and angle, is ≥ 1000 GeV > m_τ
+  (kernel-checked zero prefixes of the CDF rows + slab bounds, lifted through the bilinear interpolation).
 -/
 namespace C18
 open Model.Interp Model.Taus Model.TabLoad TablesReal Bilinear VecInterp CdfSample Slice ScalarReal
@@ -37,6 +40,41 @@ theorem shipped_axis_order :
     Gen.Tab1.axisNames = ["log_e_nu", "beta_rad", "e_tau_frac"] ∧ Gen.Tab2.axisNames = ["log_e_nu", "beta_rad", "e_tau_frac"]
     ∧ Gen.Tab3.axisNames = ["log_e_nu", "beta_rad", "e_tau_frac"] :=
   ⟨Data.t1_axisNames.1, Data.t2_axisNames.1, Data.t3_axisNames.1⟩
+
+/-! ### smallest reachable tau energy -/
+
+/-- version 1: every tau energy the sampler can return is at least 1000 GeV -/
+theorem shipped_min_tau_energy_v1 (le b u z : ℝ)
+    (hle : InRange (cdf1 : CdfTable ℝ).logE le) (hb : InRange (cdf1 : CdfTable ℝ).beta b) (hu0 : 0 < u)
+    (hu1 : ∀ y, (interpRow (cdf1 : CdfTable ℝ) le b).getLast? = some y → u ≤ y)
+    (hs : cdfSample (cdf1 : CdfTable ℝ) le b u = .ok z) : 1000 ≤ z * (10:ℝ) ^ le :=
+  MinEnergy.min_energy Gen.Tab1.nE Gen.Tab1.nB Gen.Tab1.nZ _ _ _ Gen.Tab1.kHints _ C04.shipped_v1_ok Data.t1_byE.1
+    (Data.allLen_sound _ _ Data.t1_byE.2) ⟨Data.t1_dims.2.1, Data.t1_dims.2.2.1, Data.t1_dims.2.2.2.1⟩
+    ⟨Data.t1_axes_test.1, Data.t1_axes_test.2.2.1⟩ Data.t1_zero Data.t1_minE le b u z hle hb hu0 hu1 hs
+
+theorem shipped_min_tau_energy_v2 (le b u z : ℝ)
+    (hle : InRange (cdf2 : CdfTable ℝ).logE le) (hb : InRange (cdf2 : CdfTable ℝ).beta b) (hu0 : 0 < u)
+    (hu1 : ∀ y, (interpRow (cdf2 : CdfTable ℝ) le b).getLast? = some y → u ≤ y)
+    (hs : cdfSample (cdf2 : CdfTable ℝ) le b u = .ok z) : 1000 ≤ z * (10:ℝ) ^ le :=
+  MinEnergy.min_energy Gen.Tab2.nE Gen.Tab2.nB Gen.Tab2.nZ _ _ _ Gen.Tab2.kHints _ C04.shipped_v2_ok Data.t2_byE.1
+    (Data.allLen_sound _ _ Data.t2_byE.2) ⟨Data.t2_dims.2.1, Data.t2_dims.2.2.1, Data.t2_dims.2.2.2.1⟩
+    ⟨Data.t2_axes_test.1, Data.t2_axes_test.2.2.1⟩ Data.t2_zero Data.t2_minE le b u z hle hb hu0 hu1 hs
+
+theorem shipped_min_tau_energy_v3 (le b u z : ℝ)
+    (hle : InRange (cdf3 : CdfTable ℝ).logE le) (hb : InRange (cdf3 : CdfTable ℝ).beta b) (hu0 : 0 < u)
+    (hu1 : ∀ y, (interpRow (cdf3 : CdfTable ℝ) le b).getLast? = some y → u ≤ y)
+    (hs : cdfSample (cdf3 : CdfTable ℝ) le b u = .ok z) : 1000 ≤ z * (10:ℝ) ^ le :=
+  MinEnergy.min_energy Gen.Tab3.nE Gen.Tab3.nB Gen.Tab3.nZ _ _ _ Gen.Tab3.kHints _ C04.shipped_v3_ok Data.t3_byE.1
+    (Data.allLen_sound _ _ Data.t3_byE.2) ⟨Data.t3_dims.2.1, Data.t3_dims.2.2.1, Data.t3_dims.2.2.2.1⟩
+    ⟨Data.t3_axes_test.1, Data.t3_axes_test.2.2.1⟩ Data.t3_zero Data.t3_minE le b u z hle hb hu0 hu1 hs
+
+/-- hence every sampled tau is above the tau mass: its Lorentz factor exceeds 1 and its speed is real, in (0,1) -/
+theorem reachable_tau_above_mass (E : ℝ) (hE : 1000 ≤ E) :
+    (Model.Kin.massTau : ℝ) < E ∧ 1 < Model.Kin.tauLorentz E ∧
+    0 < Model.Kin.tauBeta (Model.Kin.tauLorentz E) ∧ Model.Kin.tauBeta (Model.Kin.tauLorentz E) < 1 := by
+  have hm : (Model.Kin.massTau : ℝ) < E := by rw [C07.massTau_val]; linarith
+  have hg := C07.gamma_gt_one E hm
+  exact ⟨hm, hg, C07.speed_in_unit _ hg⟩
 
 /-! ### the bracketing row interpolation is ordinary piecewise-linear interpolation -/
 
